@@ -63,10 +63,10 @@ class Scenario:
         elif k == "map_async":
             async def fn(x):
                 fut = Future()
-                self.tasks.append((x, fut))
-                self.log.add("func_start", e=x)
+                self.tasks.append((self.ident(x), fut))
+                self.log.add("func_start", e=self.ident(x))
                 await fut
-                self.log.add("func_end", e=x)
+                self.log.add("func_end", e=self.ident(x))
                 return x
             node = s.map_async(fn, parallelism=cfg["parallelism"])
         elif k in ("direct", "tree"):
